@@ -95,6 +95,33 @@ def foo(n: size, kk: index, x: R[8], y: R[8]):
     for kk in seq(4, 6):
         y[kk] = 3.0
 """),
+    ("window_of_window_same_cell", """
+@proc
+def setz(z: [R][4]):
+    z[0] = 1.0
+
+@proc
+def setrow(y: [R][3, 4], r: index):
+    assert r >= 0
+    assert r < 3
+    row = y[r, 0:4]
+    row[0] = 2.0 * row[0]
+    setz(y[1, 0:4])
+
+@proc
+def foo(x: R[6, 6], u: R[6]):
+    y = x[2:5, 1:5]
+    z = y[1, 0:4]
+    z[0] = 1.0
+    x[3, 1] = 2.0
+    w = u[1:5]
+    v = w[2:4]
+    v[1] = 3.0
+    u[4] += 4.0
+    for i in seq(0, 3):
+        setrow(x[1:4, 2:6], i)
+        x[2, 2] = 5.0
+"""),
     ("mult_dim_transposes", """
 @proc
 def foo(n: size, m: size, a: [R][n, m], b: R[n, m], c: R[4]):
@@ -307,6 +334,7 @@ class Search:
         self.prefix_ops = prefix_ops  # ops applied (unchecked here) before the explored ones, to vary the starting point
         self.max_cands = max_cands or ck.n(30, 80)
         self.deadline = None
+        self.on_program = None  # callback (tag, src, procedure) for per-program checks
         self.after_apply = []  # callbacks (old, new, op, descr, src) -> None, used by C04's static checks
 
     def want(self, op):
@@ -351,6 +379,11 @@ class Search:
             self.sc.reset()
             cfgs = [v for v in vars(mod).values() if type(v).__name__ == "Config"]
             p, hist = mod.foo, []
+            if self.on_program:
+                try:
+                    self.on_program(tag, src, p)
+                except Exception:
+                    traceback.print_exc()
             if self.prefix_ops and self.ck.rng.random() < 0.6:
                 pre = [c for c in sched.candidates(p, random.Random(self.ck.rng.randrange(1 << 30)), configs=cfgs)
                        if c[0] in self.prefix_ops]
@@ -368,9 +401,15 @@ class Search:
 
     def explore(self, tag, src, p, cfgs, depth, history=()):
         rng = self.ck.rng
-        cands = [c for c in sched.candidates(p, random.Random(rng.randrange(1 << 30)), configs=cfgs) if self.want(c[0])]
+        try:
+            allc = sched.candidates(p, random.Random(rng.randrange(1 << 30)), configs=cfgs)
+        except Exception as e:  # e.g. a procedure whose body became empty (unroll of a zero-trip loop): nothing to explore
+            self.stats["unexplorable"] = self.stats.get("unexplorable", 0) + 1
+            return
+        cands = [c for c in allc if self.want(c[0])]
         rng.shuffle(cands)
-        cands = cands[: self.max_cands]
+        if not tag.startswith("corpus:"):  # the hand-written corpus is explored completely
+            cands = cands[: self.max_cands]
         self.apply_all(tag, src, p, cands, cfgs, depth, history)
 
     def apply_all(self, tag, src, p, cands, cfgs, depth, history):
